@@ -569,8 +569,18 @@ func ruleMemVisibility(c *Ctx, r *Reporter) {
 			r.Unresolved("memtable.Iterator."+mn, "not found")
 			continue
 		}
-		// a loop that contains a call to isVisible and advances it.current
+		// a loop that contains a call to isVisible and advances it.current — in the method itself or in a helper of the
+		// same type it calls directly (extracted "skip" helper)
 		found := false
+		bodies := []*ssa.Function{fn}
+		AllInstrs(fn, false, func(_ *ssa.Function, ins ssa.Instruction) {
+			if call, ok := ins.(*ssa.Call); ok {
+				if g := call.Call.StaticCallee(); g != nil && g != vis && recvTypeName(g) == recvTypeName(fn) && len(g.Blocks) > 0 {
+					bodies = append(bodies, g)
+				}
+			}
+		})
+		for _, fn := range bodies {
 		for _, l := range GenericLoops(fn) {
 			hasVis, adv := false, false
 			for _, b := range fn.Blocks {
@@ -591,6 +601,7 @@ func ruleMemVisibility(c *Ctx, r *Reporter) {
 			if hasVis && adv {
 				found = true
 			}
+		}
 		}
 		r.Check(found, "memtable.Iterator."+mn, c.FnPos(fn), "positions past nodes that are invisible in the snapshot", "does not skip nodes that are invisible in the iterator's snapshot: the iterator can rest on an invisible node and report itself exhausted")
 	}
